@@ -20,6 +20,45 @@ theorem src_replayOnePartition_expected : src_replayOnePartition = "{ for i, fil
 
 theorem src_writeSnapshot_expected : src_writeSnapshot = "{ snapShotter := s.SnapShotter if snapShotter != nil { atomic.StoreUint32(&snapShotter.RaftFlag, 0) } s.snapshotLock.Lock() if s.activeTbl == nil { s.snapshotLock.Unlock() return } walFiles, err := s.wal.Switch() if err != nil { s.snapshotLock.Unlock() panic(\"wal switch failed\") } s.snapshotTbl = s.activeTbl curSize := s.snapshotTbl.GetMemSize() s.activeTbl = s.memTablePool.Get(s.engineType) s.activeTbl.SetIdx(s.skIdx) s.snapshotLock.Unlock() start := time.Now() s.indexBuilder.Flush() s.commitSnapshot(s.snapshotTbl) nodeMutableLimit.freeResource(curSize) err = RemoveWalFiles(walFiles) if err != nil { panic(\"wal remove files failed: \" + err.Error()) } if snapShotter != nil { snapShotter.RaftFlushC <- true atomic.StoreUint32(&snapShotter.RaftFlag, 1) } failpoint.Inject(\"snapshot-table-reset-delay\", func() { time.Sleep(2 * time.Second) }) s.snapshotLock.Lock() s.snapshotTbl.UnRef() s.snapshotTbl = nil s.snapshotLock.Unlock() atomic.AddInt64(&statistics.PerfStat.FlushSnapshotDurationNs, time.Since(start).Nanoseconds()) atomic.AddInt64(&statistics.PerfStat.FlushSnapshotCount, 1) }" := by rfl
 
+theorem src_trySync_expected : src_trySync = "{ if w.SyncInterval == 0 { return w.sync() } if !atomic.CompareAndSwapInt32(&w.syncTaskCount, 0, 1) { return nil } go func() { _ = w.sync() }() return nil }" := by rfl
+
+theorem src_sync_expected : src_sync = "{ var err error if w.SyncInterval == 0 { w.syncMu.Lock() if w.currentFd != nil { err = w.currentFd.Sync() } w.syncMu.Unlock() return err } t := time.NewTicker(w.SyncInterval) defer t.Stop() for { select { case <-w.closed: atomic.StoreInt32(&w.syncTaskCount, 0) return nil case <-t.C: w.syncMu.Lock() if w.currentFd != nil { err = w.currentFd.Sync() } atomic.StoreInt32(&w.syncTaskCount, 0) w.syncMu.Unlock() return err } } }" := by rfl
+
+theorem src_closeCurrentFile_expected : src_closeCurrentFile = "{ if w.currentFd == nil || w.currentFileSize == 0 { return nil } if err := w.currentFd.Sync(); err != nil { return err } if err := w.currentFd.Close(); err != nil { return err } w.currentFileSize = 0 w.currentFd = nil return nil }" := by rfl
+
+theorem src_LogWriterSwitch_expected : src_LogWriterSwitch = "{ w.syncMu.Lock() err := w.closeCurrentFile() w.syncMu.Unlock() if err != nil { return nil, err } fileNames := make([]string, 0, len(w.fileNames)) fileNames = append(fileNames, w.fileNames...) w.fileNames = w.fileNames[:0] return fileNames, nil }" := by rfl
+
+theorem src_trySwitchFile_expected : src_trySwitchFile = "{ if w.currentFd == nil || w.currentFileSize > DefaultFileSize { w.fileSeq++ err := w.closeCurrentFile() if err != nil { return err } fileName := filepath.Join(logPath, fmt.Sprintf(\"%d.%s\", w.fileSeq, WALFileSuffixes)) lock := fileops.FileLockOption(*w.lock) pri := fileops.FilePriorityOption(fileops.IO_PRIORITY_ULTRA_HIGH) fd, err := fileops.OpenFile(fileName, os.O_CREATE|os.O_RDWR, 0600, lock, pri) if err != nil { return err } w.fileNames = append(w.fileNames, fileName) w.currentFd = fd w.currentFileSize = 0 } return nil }" := by rfl
+
+theorem src_removeWalFiles_expected : src_removeWalFiles = "{ if files == nil { return nil } var err error lock := fileops.FileLockOption(*files.lock) for _, f := range files.files { e := fileops.Remove(f, lock) if e != nil { err = e logger.NewLogger(errno.ModuleWal).Error(\"failed to remove wal file\", zap.String(\"file\", f), zap.Error(err)) } } return err }" := by rfl
+
+theorem src_RenameTmpFiles_expected : src_RenameTmpFiles = "{ for i := range newFiles { f := newFiles[i] tmpName := f.Path() if IsTempleFile(filepath.Base(tmpName)) { fname := tmpName[:len(tmpName)-len(tmpFileSuffix)] if err := f.FreeFileHandle(); err != nil { return err } if err := f.Rename(fname); err != nil { log.Error(\"rename file error\", zap.String(\"name\", tmpName), zap.Error(err)) if _, e := fileops.Stat(fname); e != nil { return os.ErrNotExist } return err } } } return nil }" := by rfl
+
+/-! ### the sync discipline: which call follows which -/
+
+theorem calls_LogWriterWrite_expected : calls_LogWriterWrite = ["w.trySwitchFile", "w.currentFd.Write", "w.trySync"] := by decide
+
+theorem calls_closeCurrentFile_expected : calls_closeCurrentFile = ["w.currentFd.Sync", "w.currentFd.Close"] := by decide
+
+theorem calls_LogWriterSwitch_expected : calls_LogWriterSwitch = ["w.closeCurrentFile"] := by decide
+
+theorem calls_writeRows_expected : calls_writeRows = ["s.activeTbl.MTable.WriteRows", "s.wal.Write"] := by decide
+
+theorem calls_WALWrite_expected : calls_WALWrite = ["l.writeBinary"] := by decide
+
+theorem calls_writeSnapshot_expected : calls_writeSnapshot = ["s.wal.Switch", "s.indexBuilder.Flush", "s.commitSnapshot", "RemoveWalFiles"] := by decide
+
+theorem calls_tsspWriterClose_expected : calls_tsspWriterClose = ["w.fileWriter.Close", "w.cmw.Close", "w.fd.Sync"] := by decide
+
+theorem calls_RenameTmpFiles_expected : calls_RenameTmpFiles = ["f.FreeFileHandle", "f.Rename"] := by decide
+
+theorem calls_syncReplayWal_expected : calls_syncReplayWal = ["s.wal.Replay", "s.ForceFlush", "s.wal.Remove"] := by decide
+
+theorem syncNow_body_expected : syncNow_body = "{ w.syncMu.Lock() if w.currentFd != nil { err = w.currentFd.Sync() } w.syncMu.Unlock() return err }" := by rfl
+
+/-- `LogWriter.trySync` as translated. -/
+theorem trySyncMode_expected (si : Int) : trySyncMode si = if (si == 0) then 0 else 1 := by rfl
+
 theorem generation_ok : generationFailed = false := by rfl
 
 end OG.C01.Facts
